@@ -241,6 +241,95 @@ def win_alphabet(st, hist):
 
 # ---------------------------------------------------------------------------------------
 
+# ---------------------------------------------------------------------------------------
+# (ties) order-sensitive window functions whose arrange= keys have ties: the result must be the
+# one of SOME order that is consistent with the keys (every way of breaking the ties is
+# admissible).  The admissible set is computed with the reference model by appending a tie-break
+# column holding each permutation of the rows to arrange=.
+
+TIE_COLS = [["k", "int"], ["g", "int"], ["x", "int"], ["v", "int"], ["tb", "int"]]
+TIE_TABLES = [
+    [[1, 1, 1, 10], [2, 1, 1, 20], [3, 1, 2, 30]],  # one tie pair
+    [[1, 1, 1, 10], [2, 1, 1, 20], [3, 1, 1, 30]],  # all tied
+    [[1, 1, 2, 5], [2, 2, 1, 7], [3, 1, 2, None], [4, 2, 1, 1]],  # a tie in each partition
+    [[1, 1, None, 1], [2, 1, None, 2], [3, 1, 3, 4], [4, 1, 3, 8]],  # tied nulls and tied values
+]
+
+
+def tie_terms():
+    tx, tv, tg, tk = (["col", "src", "T", n] for n in ("x", "v", "g", "k"))
+    out = []
+    for oname, order in (("x", [["nulls_last", tx]]), ("x.desc", [["desc", ["nulls_first", tx]]]), ("g,x", [tg, ["nulls_last", tx]])):
+        for pname, part in (("-", None), ("g", [tg])):
+            ck = {"arrange": order}
+            if part:
+                ck["partition_by"] = part
+            out.append((f"cum_sum(v)[{oname};{pname}]", lambda o, ck=ck: ["cum_sum", tv, {**ck, "arrange": o}], order))
+            out.append((f"shift(v,1)[{oname};{pname}]", lambda o, ck=ck: ["shift", tv, 1, None, {**ck, "arrange": o}], order))
+            out.append((f"row_number[{oname};{pname}]", lambda o, ck=ck: ["row_number", {**ck, "arrange": o}], order))
+            # (one function per term: two functions of one expression may break the same ties differently -
+            # SQL backends append rand() to the order of cum_sum -, which the property allows)
+            out.append((f"shift(v,-1,0)[{oname};{pname}]", lambda o, ck=ck: ["shift", tv, -1, ["lit", 0], {**ck, "arrange": o}], order))
+            out.append((f"cum_sum(k)[{oname};{pname}]", lambda o, ck=ck: ["cum_sum", tk, {**ck, "arrange": o}], order))
+    return out
+
+
+def ties_part(stats, vs, only=None):
+    import warnings
+
+    import pydiverse.transform as pdt
+
+    from .. import compare as C
+    from .. import impl as I
+    from .. import refmodel as M
+    from .. import world as W
+
+    tb = ["col", "src", "T", "tb"]
+    for ti, rows in enumerate(TIE_TABLES):
+        n = len(rows)
+        base_world = {"tables": {"T": {"cols": TIE_COLS, "rows": [r + [i] for i, r in enumerate(rows)]}}}
+        for label, mk, order in tie_terms():
+            if only is not None and only != (ti, label):
+                continue
+            # admissible results: one per way of breaking the ties
+            admissible = set()
+            for perm in itertools.permutations(range(n)):
+                w = {"tables": {"T": {"cols": TIE_COLS, "rows": [r + [perm[i]] for i, r in enumerate(rows)]}}}
+                mdl = M.Model(w)
+                st = mdl.run([["source", "T"], ["mutate", [["w", mk(order + [tb])]]]])[-1]
+                names = st.names()
+                ki, wi = names.index("k"), names.index("w")
+                admissible.add(tuple(sorted((r[ki], C.norm_cell(r[wi])) for r in st.frame_rows())))
+            stats["tie_admissible_results"] += len(admissible)
+            for b in W.BACKENDS:
+                stats["states"] += 1
+                stats["transitions"] += 1
+                built = W.build(base_world, b)
+                try:
+                    ctx = I.Ctx(built)
+                    ctx.tables = [built.tables["T"]]
+                    with warnings.catch_warnings():
+                        warnings.simplefilter("ignore")
+                        try:
+                            df = built.tables["T"] >> pdt.mutate(w=I.build_expr(mk(order), ctx)) >> pdt.export(pdt.Polars())
+                        except Exception as e:  # noqa: BLE001
+                            vs.append(tie_violation(b, ti, label, f"exception:{X.exc_label(e)}", {"message": str(e)[:300]}))
+                            continue
+                    got = tuple(sorted((k_, C.norm_cell(w_)) for k_, w_ in zip(df["k"].to_list(), df["w"].to_list())))
+                    stats["traces_validated"] += 1
+                    if got not in admissible:
+                        vs.append(tie_violation(b, ti, label, "no-admissible-order", {"got": str(got), "admissible": [str(a) for a in sorted(admissible, key=str)][:8],
+                                                                                        "rows": rows}))
+                finally:
+                    built.close()
+
+
+def tie_violation(backend, ti, label, symptom, detail):
+    return {"invariant": "ties:result-of-some-consistent-order", "backend": backend, "symptom": symptom, "world": {"tables": {}},
+            "history": [["ties", ti, label]], "detail": detail, "class": f"ties:result-of-some-consistent-order|{backend}|{label}|{symptom}",
+            "count": 1, "py": f"table {ti}: mutate(w={label})", "params": {"part": "ties", "table": ti, "label": label}}
+
+
 def make_explorer(world, part="arr", max_follow=1):
     if part == "arr":
         return X.Explorer(world, alphabet=arr_alphabet(max_follow), checks=[], depth=2 + max_follow,
@@ -268,10 +357,17 @@ def tasks(tier):
         step = 16 if tier == "quick" else 24
         for i in range(0, nfirst, step):
             out.append({"part": part, "world": wi, "max_follow": mf, "first": list(range(i, i + step))})
+    out.append({"part": "ties"})
     return out
 
 
 def run_task(task, tier):
+    if task["part"] == "ties":
+        from collections import Counter
+
+        stats, vs = Counter(), []
+        ties_part(stats, vs)
+        return {"stats": dict(stats), "outcomes": {}, "levels": {}, "violations": vs, "samples": []}
     w = worlds(tier)[task["world"]]
     part = "arr" if task["part"].startswith("arr") else "win"
     if task["part"] == "arr2":
@@ -284,11 +380,19 @@ def run_task(task, tier):
 
 def recheck(rec):
     p = rec.get("params") or {}
+    if p.get("part") == "ties":
+        from collections import Counter
+
+        stats, vs = Counter(), []
+        ties_part(stats, vs, only=(p["table"], p["label"]))
+        return [v for v in vs if v["class"] == rec["class"]]
     return base.recheck_history(lambda ww: make_explorer(ww, p.get("part", "arr"), p.get("max_follow", 1)), rec)
 
 
 def describe(tier):
     return {
+        "ties": {"tables": len(TIE_TABLES), "window_terms": len(tie_terms()),
+                 "oracle": "the (k, w) pairs of the backend equal the reference-model result for at least one way of breaking the ties (all n! tie-break permutations enumerated)"},
         "arr": {
             "first_arrange_forms": len(ARR1),
             "second_arrange_forms": [T.py_event(e) for e in ARR2],
